@@ -1,0 +1,11 @@
+//go:build verif
+
+package nbt
+
+// govc contracts for this package (see /verif/DESIGN.md). Comment-only.
+
+// The reflective decoder is outside the verifier's reach; callers under contract rely only on
+// this frame condition: decoding a RawMessage writes nothing but the object v points to.
+//@ func (RawMessage).Unmarshal(m; v) (err)
+//@   trusted
+//@   modifies *v
